@@ -221,6 +221,26 @@ theorem C24_gen_checkpoint_priorities :
     (Gen.C24.checkpointPriorities.map (·.2)).Nodup ∧ Gen.C24.checkpointPriorities.length ≥ 5 ∧
     (checkpointOrder Gen.C24.checkpointPriorities).isSome = true := by decide
 
+/-- **Committee change, then claim** (chain order, which synchronous delivery of the committee-change
+    event guarantees): the node key a council member claims in the block after the change resolves
+    to that member — for every state of the two key maps. -/
+theorem C24_claim_survives_sync (s : NodeKeys) (node owner : Nat) :
+    ownerOf (syncRun s node owner) node = some owner := by
+  simp [ownerOf, syncRun, onClaim]
+
+/-- **Witness for asynchronous delivery**: if the handler of the committee change runs after the
+    claim of the next block, the claim is overwritten (the node key resolves to nobody unless the
+    next-term map happened to contain it) — the inactivity accounting of that member, hence the
+    `isNormal` flag of its CRC arbiter in the next arbiter set, then depends on goroutine timing. -/
+theorem C24_claim_lost_when_late (s : NodeKeys) (node owner : Nat) (h : ∀ p ∈ s.next, p.1 ≠ node) :
+    ownerOf (lateRun s node owner) node = none := by
+  simp only [ownerOf, lateRun, onCommitteeChange, onClaim, Option.map_eq_none_iff, List.find?_eq_none,
+    beq_iff_eq]
+  intro p hp; exact h p hp
+
+example : ownerOf (syncRun ⟨[], [(0xa1, 0x11)]⟩ 0xb2 0x11) 0xb2 = some 0x11 := by decide
+example : ownerOf (lateRun ⟨[], [(0xa1, 0x11)]⟩ 0xb2 0x11) 0xb2 = none := by decide
+
 /-! ## 3. reach certificate -/
 
 def randPkg (p : String) : Bool :=
